@@ -113,6 +113,17 @@ class extract_visitor(NodeVisitor):
             return
         self.generic_visit(node)
 
+    def visit_BoolOp(self, node):
+        # type: (ast.BoolOp) -> None
+        # short circuit: an operand is evaluated only if the ones before it
+        # did not decide the result, and each of them may be the last one
+        self.visit(node.values[0])
+        exits = [self.flow]
+        for v in node.values[1:]:
+            exits.append(self.visit_in_flow(v, self.make_flow('boolop', [exits[-1]])))
+        self.flow = self.make_flow('join', exits)
+        self.flow.scope.flow = self.flow
+
     def visit_If(self, node):
         # type: (ast.If) -> None
         self.visit(node.test)
